@@ -966,6 +966,10 @@ class Engine:
         if f is filter:
             fn = args[0]
             return [x for x in self.iterate(args[1]) if self.truth(self.call(fn, [x], {}) if fn is not None else x)]
+        if f is next and args and hasattr(args[0], '__pyvc_next__'):
+            if len(args) < 2:
+                raise Unsupported('next() of a ghost sequence without a default')
+            return args[0].__pyvc_next__(self, args[1])
         if f is next:
             seq = args[0]
             if isinstance(seq, list):
@@ -1663,6 +1667,19 @@ class Engine:
         rec(0, env)
 
     def e_ListComp(self, n, env, g):
+        if len(n.generators) == 1 and isinstance(n.generators[0].iter, (ast.Attribute, ast.Name)):
+            gen = n.generators[0]
+            it = self.ev(gen.iter, env, g)        # a name or an attribute: evaluating it again below has no effect
+            if hasattr(it, '__pyvc_comp__'):
+                # ghost sequence of symbolic length: condition and element are evaluated ONCE, on the generic element the ghost supplies
+                def bind(v):
+                    e2 = dict(env)
+                    self.assign(gen.target, v, e2, g)
+                    keep = z3.BoolVal(True)
+                    for c in gen.ifs:
+                        keep = z3.And(keep, ZB(self.ev(c, e2, g)))
+                    return Sym(z3.simplify(keep)), self.ev(n.elt, e2, g)
+                return it.__pyvc_comp__(self, bind)
         out = []
         self.comp(n, env, g, lambda e: out.append(self.ev(n.elt, e, g)))
         return out
